@@ -56,7 +56,7 @@ class C19(Check):
 
     def gen(self, rng: random.Random, tier: str, index: int) -> dict:
         cfg = gen.network_case(rng, nsteps=rng.randrange(2, 6), n_sensors=rng.randrange(1, 4), n_targets=rng.randrange(1, 4), model="two_body",
-                               two_engines_p=0.15, space_sensor_p=0.25, geo_p=0.8, placed_p=0.95, out_mult=1, kinds=("radar", "adv_radar", "optical"),
+                               two_engines_p=0.3, space_sensor_p=0.25, geo_p=0.8, placed_p=0.95, out_mult=1, kinds=("radar", "adv_radar", "optical"),
                                decision=rng.choice(["MunkresDecision", "MyopicNaiveGreedyDecision", "AllVisibleDecision"]))
         S, step, out, ncfg = time_info({"config": cfg})
         tids = sorted({t["id"] for e in cfg["engines"] for t in e["targets"]})
@@ -80,11 +80,14 @@ class C19(Check):
         if rng.random() < 0.2:
             muts.append({"op": "drop_observations"})
         rng.shuffle(muts)
-        return {"config": cfg, "plan": [{"seconds": ncfg * step}], "schedule": {"name": "seeded", "seed": rng.randrange(2**31)}, "job_seed": rng.randrange(2**31),
+        # importer file produced under another engine layout: phase 2 runs with the target lists of the two engines swapped, so the stored
+        # observations pair a sensor of one engine with a target of the other
+        relayout = len(cfg["engines"]) == 2 and rng.random() < 0.5
+        return {"relayout": relayout, "config": cfg, "plan": [{"seconds": ncfg * step}], "schedule": {"name": "seeded", "seed": rng.randrange(2**31)}, "job_seed": rng.randrange(2**31),
                 "mix": mix, "realtime_observation": rt_obs, "mutations": muts, "enumerate_cells": tier == "thorough" and rng.random() < 0.3}
 
     def sample_view(self, case):
-        return {"time": case["config"]["time"], "mix": case["mix"], "realtime_observation": case["realtime_observation"], "mutations": case["mutations"],
+        return {"time": case["config"]["time"], "mix": case["mix"], "importer_from_other_engine_layout": bool(case.get("relayout")), "realtime_observation": case["realtime_observation"], "mutations": case["mutations"],
                 "agents": {"targets": sorted({t["id"] for e in case["config"]["engines"] for t in e["targets"]}),
                            "sensors": sorted({s["id"] for e in case["config"]["engines"] for s in e["sensors"]})}}
 
@@ -92,7 +95,7 @@ class C19(Check):
     def run(self, case: dict) -> dict:
         res = result_template()
         viol, cnt = res["violations"], res["counters"]
-        res["key"] = jdigest([case["config"], case["mix"], case["realtime_observation"], case["mutations"]])
+        res["key"] = jdigest([case["config"], case["mix"], case["realtime_observation"], case["mutations"], case.get("relayout")])
         S, step, out, ncfg = time_info(case)
         base_dir = os.path.join(scratch_dir(), f"c19-{os.getpid()}")
         os.makedirs(os.path.join(base_dir, "p1"), exist_ok=True)
@@ -140,6 +143,10 @@ class C19(Check):
         cfg2["propagation"] = dict(cfg2["propagation"], target_realtime_propagation=case["mix"] not in ("targets", "both"),
                                    sensor_realtime_propagation=case["mix"] not in ("sensors", "both"))
         cfg2["observation"] = dict(cfg2["observation"], realtime_observation=case["realtime_observation"])
+        if case.get("relayout") and len(cfg2["engines"]) == 2:
+            e0, e1 = cfg2["engines"]
+            cfg2["engines"] = [dict(e0, targets=e1["targets"]), dict(e1, targets=e0["targets"])]
+            cnt["importer_from_other_engine_layout"] = cnt.get("importer_from_other_engine_layout", 0) + 1
         c2 = dict(case)
         c2["config"] = cfg2
         c2["_dir"] = workdir
